@@ -9,6 +9,11 @@ import sys
 import threading
 import time
 
+# 'starting' scenarios: child processes which load this script while the flag file exists are slow to come up, so that
+# the server can be stopped while a worker is still inside the start-up handshake
+if __name__ != '__main__' and os.environ.get('C12_SLOW_CHILD') and os.path.exists(os.environ['C12_SLOW_CHILD']):
+    time.sleep(1.5)
+
 
 def coop(x=0, exp=1):
     t0 = time.time()
@@ -52,6 +57,8 @@ def main():
     import logging
     logging.disable(logging.CRITICAL)
     cfg = json.loads(sys.argv[1])
+    flag = f'/var/tmp/c12_slow_{os.getpid()}.flag'
+    os.environ['C12_SLOW_CHILD'] = flag
     from harness import server_tools as st
     from pyworkers.persistent_remote import PersistentRemoteWorker
     from pyworkers.remote import RemoteWorker
@@ -89,12 +96,28 @@ def main():
         else:
             time.sleep(delay)
         pids = [w.pid for w in workers]
+        starting = []
+        if cfg.get('starting'):
+            open(flag, 'w').write('slow')
+
+            def construct(slot):
+                try:
+                    slot['w'] = RemoteWorker(coop, host=addr)
+                    slot['o'] = 'returned'
+                except BaseException as e:   # noqa
+                    slot['o'] = f'raised {type(e).__name__}'
+            for _ in range(cfg['starting']):
+                slot = {}
+                th = threading.Thread(target=construct, args=(slot,), daemon=True)
+                th.start()
+                starting.append((slot, th))
+            time.sleep(0.6)
         desc = st.descendants(server.pid)
         out['n_descendants'] = len(desc)
         t0 = time.time()
         if cfg['mode'] == 'terminate':
             r = {}
-            th = threading.Thread(target=lambda: r.setdefault('r', server.terminate(timeout=5, force=True)), daemon=True)
+            th = threading.Thread(target=lambda: r.setdefault('r', server.terminate(timeout=cfg.get('server_timeout', 5), force=True)), daemon=True)
             th.start(); th.join(30)
             out['server_terminate'] = r.get('r', 'did not return in 30 s')
         else:
@@ -131,6 +154,25 @@ def main():
                 r['blocked'] = True
             r['pid_gone'] = state_of(pid) in (None, 'Z') or pid == os.getpid()
             out['children'].append(r)
+        out['starting'] = []
+        for slot, th in starting:
+            th.join(12)
+            r = dict(constructor=slot.get('o', 'hang'))
+            if slot.get('o') == 'returned':
+                w = slot['w']
+                r2 = {}
+
+                def observe2(w=w, r2=r2):
+                    try:
+                        r2['wait'] = w.wait(2); r2['alive'] = w.is_alive(); r2['has_error'] = w.has_error
+                    except BaseException as e:   # noqa
+                        r2['raised'] = f'{type(e).__name__}: {e}'
+                t2 = threading.Thread(target=observe2, daemon=True)
+                t2.start(); t2.join(15)
+                if t2.is_alive():
+                    r2['blocked'] = True
+                r.update(r2)
+            out['starting'].append(r)
         for p in left:
             try:
                 os.kill(p, signal.SIGKILL)
@@ -145,6 +187,10 @@ def main():
                 os.kill(p, signal.SIGKILL)
         except Exception:
             pass
+    try:
+        os.remove(flag)
+    except OSError:
+        pass
     out['wall'] = round(time.time() - t_start, 1)
     print('C12RESULT ' + json.dumps(out))
     sys.stdout.flush()
